@@ -106,9 +106,11 @@ Failed(m, n, ev, okModel, cf, modelConnected) ==
           [] x = "C10-RequestSurvivesNewSession" ->
                 NConnected(ev.sig) > 0 /\ ~p.smResumed /\ m.iq = "out" /\ ev.e # "SendIq" /\ p.iq = "out"
           \* stream-management chatter (<r/>, <a/>) while the client itself says, before and after the
-          \* step, that stream management is not enabled: state of an earlier session is still in use
+          \* step, that stream management is not enabled: state of an earlier session is still in use.
+          \* (Judged while the server has been protocol-conforming: a server that restarts the stream
+          \* inside an established session makes the two halves of the client disagree legitimately.)
           [] x = "C10-StreamManagementLeftOver" ->
-                /\ ~m.sm /\ ~p.smEnabled /\ ~p.smResumed
+                /\ cf /\ ~m.sm /\ ~p.smEnabled /\ ~p.smResumed
                 /\ \E i \in DOMAIN ev.out : ev.out[i].k \in {"SmReq", "SmAck"}
           [] x = "C10-StaleStateOnNewStream" ->
                 /\ ev.e = "Connect" /\ ~ev.hang /\ p.sock = "On"
